@@ -3,7 +3,9 @@
     with d > 0; [fval_lt]/[fval_eq] compare values by cross multiplication. *)
 From Dashu Require Import Base.Prelude Float.RoundSpec Ratio.SimplestSpec Ratio.SimplestModel Ratio.SimplerOrder
   Ratio.SimplestProof Ratio.SimplestAsis Ratio.FareyProof Ratio.FareyNext Ratio.FareyNearest Ratio.SimplestFindings
-  Ratio.SimplestClosed Ratio.SimplestFloatEq Ratio.SimplestIeeeEq.
+  Ratio.SimplestClosed Ratio.SimplestFloatEq Ratio.SimplestIeeeEq Ratio.RoundPreimage Ratio.FloatPreimage
+  Ratio.ErrorBoundsTableProof.
+From DashuGen Require Import ErrorBoundsTable.
 Open Scope Z_scope.
 
 (** ** is_simpler_than *)
@@ -162,6 +164,45 @@ Theorem C18_simplest_from_ieee_unless_known : forall mb eb bits, 1 <= mb ->
   simplest_from_ieee_asis mb eb bits = simplest_from_ieee_spec mb eb bits.
 Proof. exact simplest_from_ieee_asis_spec. Qed.
 Print Assumptions C18_simplest_from_ieee_unless_known.
+
+(** ** the ErrorBounds table of float/src/round.rs, REGENERATED on every run (gen/ErrorBoundsTable.v,
+    tools/translate_c18.py), evaluates to the hand-written as-is model for every base, mode,
+    precision, exponent and non-zero significand: a changed table entry breaks this proof *)
+Theorem C18_error_bounds_table : forall B md p sig ex, sig <> 0 ->
+  error_bounds_asis B md p sig ex = eb_eval B md p sig ex (error_bounds_table md B p sig (ndigits B (Z.abs sig))).
+Proof. exact error_bounds_asis_eq_table. Qed.
+Print Assumptions C18_error_bounds_table.
+
+(** ** the specified rounding interval IS the preimage of the float under its rounding rule *)
+(** the integers N/d that the shared rounding specification sends to r, for the six modes *)
+Theorem C18_spec_round_preimage : forall md N d r, 0 < d ->
+  (spec_round md N d = r <->
+   match md with
+   | MDown => r * d <= N < (r + 1) * d
+   | MUp => (r - 1) * d < N <= r * d
+   | MZero => (0 < r /\ r * d <= N < (r + 1) * d) \/ (r < 0 /\ (r - 1) * d < N <= r * d) \/ (r = 0 /\ - d < N < d)
+   | MAway => (0 < r /\ (r - 1) * d < N <= r * d) \/ (r < 0 /\ r * d <= N < (r + 1) * d) \/ (r = 0 /\ N = 0)
+   | MHalfAway => (0 < r /\ (2 * r - 1) * d <= 2 * N < (2 * r + 1) * d) \/
+                  (r < 0 /\ (2 * r - 1) * d < 2 * N <= (2 * r + 1) * d) \/ (r = 0 /\ - d < 2 * N < d)
+   | MHalfEven => if Z.even r then (2 * r - 1) * d <= 2 * N <= (2 * r + 1) * d
+                  else (2 * r - 1) * d < 2 * N < (2 * r + 1) * d
+   end).
+Proof. exact spec_round_preimage. Qed.
+Print Assumptions C18_spec_round_preimage.
+
+(** FBig: every base >= 2, six modes, precision p >= 1, non-zero significand of at most p digits
+    (normalised or not), every exponent: a canonical fraction x belongs to the interval the
+    specification of simplest_from_float uses iff x rounded to p significant digits under the mode
+    (a digit position k with B^(p-1) <= |x|/B^k < B^p, then spec_round at that position) is the float.
+    Directed modes: half-open ulp intervals; HalfAway/HalfEven: half-ulp intervals, the tie rule
+    deciding the closed end; at powers of the base the lower (toward zero) part is B times narrower. *)
+Theorem C18_float_interval_is_preimage : forall B md p sig ex x,
+  2 <= B -> 1 <= p -> sig <> 0 -> ndigits B (Z.abs sig) <= p -> canon x ->
+  (member (float_interval_spec B md p sig ex) x <->
+   exists k, B ^ (p - 1) * snd (qscale B k x) <= Z.abs (fst (qscale B k x)) < B ^ p * snd (qscale B k x) /\
+             scaled B sig ex 1 = scaled B (spec_round md (fst (qscale B k x)) (snd (qscale B k x))) k 1).
+Proof. exact float_interval_is_preimage. Qed.
+Print Assumptions C18_float_interval_is_preimage.
 
 (** ** findings: the repaired defects (F01-F03, F05, F08) stay refuted on the pinned bodies, the open ones on the as-is models *)
 Theorem C18_F01_is_simpler_than_pinned_refuted :
